@@ -93,7 +93,7 @@ def gen_model(rng: Prng, n: int) -> dict:
 
 def gen_step(rng: Prng) -> dict:
     k = rng.weighted([("mk", 10), ("write", 8), ("index", 4), ("detach", 3), ("copy", 2), ("write_owner", 3),
-                      ("adj", 1)])
+                      ("adj", 1), ("scribble", 2)])
     s: dict = {"k": k, "t": rng.below(64), "h": rng.below(64)}
     if k == "mk":
         s["what"] = rng.weighted([("getitem", 3), ("node", 1), ("slice", 2), ("iter", 1), ("parent", 2),
@@ -111,6 +111,9 @@ def gen_step(rng: Prng) -> dict:
         s["val"] = rng.randint(1, 4000)
         s["i"] = rng.below(64)
         s["via"] = rng.choice(["attr", "item"])
+    elif k == "scribble":
+        s["what"] = rng.choice(["branch_segs", "branch_segs", "tree_segs", "paths", "branches", "children"])
+        s["how"] = rng.choice(["pop", "reverse", "clear", "extend", "del0", "double"])
     elif k == "index":
         s["i"] = rng.randint(-30, 30)
         if rng.chance(0.5):
@@ -563,6 +566,61 @@ def execute(program: dict) -> dict:
                                    "made_by": f"detach:{h['kind']}"})
                     add(h["kind"], len(owners) - 1, list(range(len(h["ids"]))), d, f"detach:{h['kind']}")
                     world.log(si, "detach", h["serial"], h["kind"])
+                elif k == "scribble":
+                    # the caller edits a CONTAINER the library returned (a list of segments, paths, branches or
+                    # children) and asks again: the views are windows onto the tree, not onto the caller's list
+                    what, how = step["what"], step["how"]
+                    cur_op = f"scribble:{what}"
+
+                    def scribble(lst):
+                        if how == "pop" and len(lst):
+                            lst.pop()
+                        elif how == "reverse":
+                            lst.reverse()
+                        elif how == "clear":
+                            del lst[:]
+                        elif how == "extend":
+                            lst.extend(list(lst)[:2])
+                        elif how == "del0" and len(lst):
+                            del lst[0]
+                        elif how == "double":
+                            lst += list(lst)
+
+                    if what == "branch_segs":
+                        cands = [h for h in handles if h["kind"] == "branch" and owners[h["o"]]["kind"] == "tree"]
+                        if not cands:
+                            world.log(si, cur_op, "no branch handle")
+                            continue
+                        h = cands[step["h"] % len(cands)]
+                        scribble(h["obj"].get_segments())
+                        read_branch_segments(h["obj"], owners[h["o"]], h["ids"], f"branch#{h['serial']} after the caller edited the list it got")
+                    else:
+                        oi = tree_owner(step["t"])
+                        o = owners[oi]
+                        tree, m = o["obj"], o["m"]
+                        n = len(m["id"])
+                        if what == "tree_segs":
+                            scribble(tree.get_segments())
+                            segs = tree.get_segments()
+                            chk(len(segs) == n - 1, "tree_segments", f"get_segments after the caller edited the list it got: {len(segs)} segments for {n} nodes")
+                            for c in range(1, n):
+                                read_pathlike(segs[c - 1], o, [m["pid"][c], c], f"get_segments()[{c - 1}]", False)
+                        elif what in ("paths", "branches"):
+                            get = tree.get_paths if what == "paths" else tree.get_branches
+                            first = get()
+                            exp = sorted(tuple(int(v) for v in ob.idx) for ob in first)
+                            scribble(first)
+                            got = sorted(tuple(int(v) for v in ob.idx) for ob in get())
+                            chk(got == exp, "path_not_chain", f"get_{what}() after the caller edited the list it got: {got[:4]} instead of {exp[:4]}")
+                        else:
+                            i = step["i"] % n if "i" in step else step["h"] % n
+                            nd = tree.node(i)
+                            scribble(nd.children())
+                            exp = [c for c in range(n) if m["pid"][c] == i]
+                            got = sorted(int(c.id) for c in tree.node(i).children())
+                            got2 = sorted(int(c.id) for c in nd.children())
+                            chk(got == exp and got2 == exp, "children", f"children() of node {i} after the caller edited the list it got: {got} / {got2}, expected {exp}")
+                    world.log(si, cur_op, how)
                 elif k == "adj":
                     oi = tree_owner(step["t"])
                     o = owners[oi]
